@@ -19,16 +19,27 @@ const vSteps = 5
 const vMaxInterval = 3600 * time.Second
 const vAlpha = 4
 
-func vCacheBMC(withTags bool) {
+func vCacheBMC(withTags bool, steps int) { vCacheBMC2(withTags, steps, false) }
+
+func vCacheBMC2(withTags bool, steps int, fixedInterval bool) {
 	capacity := vNondetInt("capacity")
 	vAssume(capacity >= 1 && capacity <= 3)
 	interval := time.Duration(vNondetI64("interval"))
 	vAssume(interval >= 1 && interval <= vMaxInterval)
+	if fixedInterval {
+		interval = 1000
+	}
 	c := NewCache(capacity, interval)
 	var seen [vAlpha]bool
 	var recorded [vAlpha]time.Time
 	var since [vAlpha][vAlpha]bool
-	for step := 0; step < vSteps; step++ {
+	// tagged ghost state: the most recent call on e that was ACCEPTED (returned
+	// false, i.e. recorded e under its tag), its time and the items offered since
+	var acc [vAlpha]bool
+	var accTag [vAlpha]string
+	var accTime [vAlpha]time.Time
+	var accSince [vAlpha][vAlpha]bool
+	for step := 0; step < steps; step++ {
 		item := vNondetU8("item")
 		vAssume(item < vAlpha)
 		tag := EmptyTag
@@ -60,6 +71,26 @@ func vCacheBMC(withTags bool) {
 					vAssert(dup, "item offered less than the interval ago and followed by fewer distinct items than the capacity is reported")
 				}
 			}
+			if withTags && acc[e] {
+				others := 0
+				for x := 0; x < vAlpha; x++ {
+					if x != e && accSince[e][x] {
+						others++
+					}
+				}
+				differs := accTag[e] == EmptyTag || tag == EmptyTag || accTag[e] != tag
+				if after.Sub(accTime[e]) < interval && others < capacity && differs {
+					vAssert(dup, "item accepted under one tag less than the interval ago, followed by fewer distinct items than the capacity, is reported when offered under another tag (every time)")
+				}
+			}
+			if !dup {
+				acc[e] = true
+				accTag[e] = tag
+				accTime[e] = before
+				for x := 0; x < vAlpha; x++ {
+					accSince[e][x] = false
+				}
+			}
 			// ghost update: e was (re)offered now; others of e reset
 			seen[e] = true
 			recorded[e] = before
@@ -70,6 +101,7 @@ func vCacheBMC(withTags bool) {
 		for e := 0; e < vAlpha; e++ {
 			if int(item) != e {
 				since[e][item] = true
+				accSince[e][item] = true
 			}
 		}
 		cur, prev := c.Sizes()
@@ -77,8 +109,10 @@ func vCacheBMC(withTags bool) {
 	}
 }
 
-func vH_C06_cache_bmc()      { vCacheBMC(false) }
-func vH_C06_cache_bmc_tags() { vCacheBMC(true) }
+func vH_C06_cache_bmc()      { vCacheBMC(false, vSteps) }
+func vH_C06_cache_bmc_tags() { vCacheBMC(true, 4) }
+func vH_C06_cache_bmc_tagsF() { vCacheBMC2(true, 4, true) }
+func vH_C06_cache_bmc_tags5() { vCacheBMC(true, vSteps) }
 
 // disabled cache (capacity 0 or nil) never reports a replay and never panics
 func vH_C06_cache_disabled() {
